@@ -282,8 +282,14 @@ class DataModel:
             return TNum(s)
         if s in ("unsigned", "unsigned int", "long", "size_t", "short", "unsigned long", "long long", "char"):
             return TNum("int")
-        if s in ("std::string", "string"):
+        if s == "std::string":
             return TStr()
+        if s == "string":
+            # the packages have no using-directive for namespace std: a bare `string` is a type only if the query's own
+            # declarations use that spelling (then the model header of the replay declares it, as the user's headers would)
+            if any(type_to_cpp(m_.ret) == "string" for c in self.classes.values() for m_ in c.methods.values()) or "string" in self.classes:
+                return TStr()
+            raise IllTyped("type name 'string' is not declared (the package has no using-directive for namespace std)")
         m = re.match(r"^(?:std::)?vector<(.*)>$", s)
         if m:
             return TColl(s, self.parse_cpp_type(m.group(1)), p)
@@ -305,6 +311,10 @@ class DataModel:
                 if isinstance(m_.ret, TColl) and m_.ret.name == s:
                     return TColl(s, m_.ret.elem, p)
         return TObj(s, p)
+
+
+class IllTyped(Exception):
+    "The emitted code is not well-formed C++ against the declared data model."
 
 
 # ------------------------------------------------------------------ symbolic values
